@@ -88,12 +88,12 @@ def _mcquad(ffcn, log_pfcn, x0, xsamples, wsamples, fparams, pparams, method,
         def pure_ffcn2(x, *fparams):
             y = pure_ffcn(x, *fparams)
             return packer.flatten(y)
-        res = _MCQuad.apply(pure_ffcn2, pure_logpfcn, x0, None, None,
+        res = _MCQuad.apply(pure_ffcn2, pure_logpfcn, x0, xsamples, wsamples,
                             method, fwd_options, bck_options,
                             nfparams, nf_objparams, npparams, *fparams, *fobjparams, *pparams, *pobjparams)
         return packer.pack(res)
     else:
-        return _MCQuad.apply(pure_ffcn, pure_logpfcn, x0, None, None,
+        return _MCQuad.apply(pure_ffcn, pure_logpfcn, x0, xsamples, wsamples,
                              method, fwd_options, bck_options,
                              nfparams, nf_objparams, npparams, *fparams, *fobjparams, *pparams, *pobjparams)
 
